@@ -2,12 +2,17 @@
 
 * `pre_build()` parses reset/advance/evolve (and initialize/is_initialized) of
   RecurrentSelectionBreedingProgram with `ast` and regenerates
-  lean/PybropsModel/Generated/C20Schedule.lean; `WellFormed C20Schedule.evolve` (closed by `decide`
-  in Props/C20.lean) is the obligation that breaks when the call skeleton of the source changes.
-* correspondence: the real class is run with scripted operator / logbook / initialisation stubs
-  (in-place mutation, fresh returns, aliasing) that record every call; the Lean driver runs the
-  regenerated schedule with the same script; the two traces must be equal.
-* Spec: `Program.specTrace` (Lean) evaluated on the trace recorded from the real class.
+  lean/PybropsModel/Generated/C20Schedule.lean statement by statement, in source order, with the
+  keyword arguments and local variable names as written (locals are numbered, nothing is
+  normalised).  `WellFormed C20Schedule.evolve` — a dataflow analysis by symbolic execution, closed
+  by `decide` in Props/C20.lean — is the obligation that breaks when the dataflow of the source
+  changes.
+* correspondence: the real class is driven through sequences of API calls (`evolve`, `reset`,
+  `advance`) with scripted operator / logbook / initialisation stubs (in-place mutation, fresh
+  returns, aliasing) that record every call; the Lean driver runs the regenerated schedule with the
+  same script; the two traces must be equal.
+* Spec: `Program.specTrace` / `specAdvance` / the reset clause (Lean) evaluated on what was
+  recorded from the real class.
 """
 import ast
 import contextlib
@@ -29,6 +34,7 @@ OPS = {("pselop", "pselect"): "pselect", ("mateop", "mate"): "mate",
        ("evalop", "evaluate"): "evaluate", ("sselop", "sselect"): "sselect"}
 LOGS = {"log_initialize": "initialize", "log_pselect": "pselect", "log_mate": "mate",
         "log_evaluate": "evaluate", "log_sselect": "sselect"}
+KWS = FIVE + ["mcfg"]
 
 
 # ====================================================================== translator (ast -> Lean)
@@ -43,53 +49,60 @@ def _self_attr(node):
     return None
 
 
-def _reg(node, what):
-    a = _self_attr(node)
-    if a in FIVE:
-        return a
-    if isinstance(node, ast.Name) and node.id in ("mcfg", "misc"):
-        return node.id
-    raise Untranslatable(f"{what}: not a container variable: {ast.unparse(node)}")
+class Scope:
+    """local variables of one method, numbered in order of first appearance from `base`"""
+    RESERVED = {"self", "lbook", "ngen", "nrep", "verbose", "loginit", "kwargs", "copy", "r", "_"}
+
+    def __init__(self, base):
+        self.base = base
+        self.names = {}
+
+    def reg(self, node, what):
+        a = _self_attr(node)
+        if a in FIVE:
+            return "." + a
+        if isinstance(node, ast.Name) and node.id not in self.RESERVED:
+            if node.id not in self.names:
+                self.names[node.id] = self.base + len(self.names)
+            return f"(.loc {self.names[node.id]})"
+        raise Untranslatable(f"{what}: not a container variable: {ast.unparse(node)}")
+
+    def is_var(self, node):
+        return _self_attr(node) in FIVE or (isinstance(node, ast.Name) and node.id not in self.RESERVED)
 
 
-def _kwargs(call, need_misc_as, what):
-    """keyword arguments of an operator / logbook call -> list of registers in the canonical
-    keyword order [mcfg?, genome, geno, pheno, bval, gmod, misc]"""
+def _kwargs(call, misc_kw, what, sc):
+    """keyword arguments of an operator / logbook call, in source order -> Lean list of (Kw × Reg)"""
     if call.args:
         raise Untranslatable(f"{what}: positional arguments")
-    kw = {}
-    star = None
-    for k in call.keywords:
-        if k.arg is None:
-            if star is not None:
-                raise Untranslatable(f"{what}: two ** arguments")
-            star = k.value
-        else:
-            if k.arg in kw:
-                raise Untranslatable(f"{what}: duplicate keyword {k.arg}")
-            kw[k.arg] = k.value
-    for name in ("t_cur", "t_max"):
-        if name not in kw or _self_attr(kw[name]) != name:
-            raise Untranslatable(f"{what}: {name} must be self._{name}")
-        del kw[name]
     out = []
-    if "mcfg" in kw:
-        out.append(_reg(kw.pop("mcfg"), what))
-    for name in FIVE:
-        if name not in kw:
+    seen = set()
+    for k in call.keywords:
+        if k.arg is None:                    # **m
+            if misc_kw != "**":
+                raise Untranslatable(f"{what}: unexpected ** argument")
+            name, val = "misc", k.value
+        elif k.arg in ("t_cur", "t_max"):
+            if _self_attr(k.value) != k.arg:
+                raise Untranslatable(f"{what}: {k.arg} must be self._{k.arg}")
+            seen.add(k.arg)
+            continue
+        elif k.arg == "miscout":
+            if misc_kw != "miscout":
+                raise Untranslatable(f"{what}: unexpected keyword miscout")
+            name, val = "misc", k.value
+        elif k.arg in KWS:
+            name, val = k.arg, k.value
+        else:
+            raise Untranslatable(f"{what}: unexpected keyword {k.arg}")
+        if name in seen:
+            raise Untranslatable(f"{what}: keyword {name} given twice")
+        seen.add(name)
+        out.append(f"(.{name}, {sc.reg(val, what)})")
+    for name in ("t_cur", "t_max"):
+        if name not in seen:
             raise Untranslatable(f"{what}: keyword {name} missing")
-        out.append(_reg(kw.pop(name), what))
-    if need_misc_as == "miscout":
-        if "miscout" not in kw or star is not None:
-            raise Untranslatable(f"{what}: miscout = misc expected")
-        out.append(_reg(kw.pop("miscout"), what))
-    else:
-        if star is None:
-            raise Untranslatable(f"{what}: **misc expected")
-        out.append(_reg(star, what))
-    if kw:
-        raise Untranslatable(f"{what}: unexpected keywords {sorted(kw)}")
-    return out
+    return "[" + ", ".join(out) + "]"
 
 
 def _is_call(node, owner_pred, method=None):
@@ -105,7 +118,14 @@ def _is_lbook(n):
     return isinstance(n, ast.Name) and n.id == "lbook"
 
 
-def _stmt(node, guarded=False):
+def _start_slot(node):
+    a = _self_attr(node)
+    if a and a.startswith("start_") and a[6:] in FIVE:
+        return FIVE.index(a[6:])
+    return None
+
+
+def _stmt(node, sc, guarded=False):
     """one Python statement -> list of Lean `Stmt` terms"""
     u = ast.unparse(node)
     # docstrings
@@ -124,12 +144,21 @@ def _stmt(node, guarded=False):
     if isinstance(node, ast.If) and isinstance(node.test, ast.Name) and node.test.id == "loginit" and not node.orelse:
         out = []
         for b in node.body:
-            r = _stmt(b, guarded=True)
+            r = _stmt(b, sc, guarded=True)
             for s in r:
                 if not s.startswith(".log "):
                     raise Untranslatable("only logbook calls may stand under `if loginit:`: " + ast.unparse(b))
             out += r
         return out
+    # if ngen is None: ngen = self._t_max
+    if isinstance(node, ast.If) and not node.orelse and isinstance(node.test, ast.Compare) \
+            and isinstance(node.test.left, ast.Name) and node.test.left.id == "ngen" \
+            and len(node.test.ops) == 1 and isinstance(node.test.ops[0], ast.Is) \
+            and isinstance(node.test.comparators[0], ast.Constant) and node.test.comparators[0].value is None \
+            and len(node.body) == 1 and isinstance(node.body[0], ast.Assign) \
+            and len(node.body[0].targets) == 1 and isinstance(node.body[0].targets[0], ast.Name) \
+            and node.body[0].targets[0].id == "ngen" and _self_attr(node.body[0].value) == "t_max":
+        return [".ngenDefault"]
     # if not self.is_initialized(): self.initialize()
     if isinstance(node, ast.If) and not node.orelse and isinstance(node.test, ast.UnaryOp) \
             and isinstance(node.test.op, ast.Not) and _is_call(node.test.operand, _is_self, "is_initialized") \
@@ -138,22 +167,35 @@ def _stmt(node, guarded=False):
             and _is_call(node.body[0].value, _is_self, "initialize") \
             and not node.body[0].value.args and not node.body[0].value.keywords:
         return [".initIfNeeded"]
-    # misc = {}
-    if isinstance(node, ast.Assign) and len(node.targets) == 1 and isinstance(node.targets[0], ast.Name) \
-            and node.targets[0].id == "misc" and isinstance(node.value, ast.Dict) and not node.value.keys:
-        return [".newMisc"]
-    # self.X = copy.deepcopy(self.start_Y)   /   self.t_cur = 0
-    if isinstance(node, ast.Assign) and len(node.targets) == 1 and _self_attr(node.targets[0]) is not None:
-        tgt = _self_attr(node.targets[0])
-        v = node.value
-        if tgt == "t_cur" and isinstance(v, ast.Constant) and v.value == 0 and type(v.value) is int:
-            return [".resetT"]
-        if tgt in FIVE and isinstance(v, ast.Call) and isinstance(v.func, ast.Attribute) \
-                and isinstance(v.func.value, ast.Name) and v.func.value.id == "copy" \
-                and v.func.attr == "deepcopy" and len(v.args) == 1 and not v.keywords:
-            src = _self_attr(v.args[0])
-            if src and src.startswith("start_") and src[6:] in FIVE:
-                return [f".copyStart .{tgt} {FIVE.index(src[6:])}"]
+    if isinstance(node, ast.Assign) and len(node.targets) == 1 and not isinstance(node.targets[0], ast.Tuple):
+        tgt, v = node.targets[0], node.value
+        # self.t_cur = 0
+        if _self_attr(tgt) == "t_cur":
+            if isinstance(v, ast.Constant) and v.value == 0 and type(v.value) is int:
+                return [".setT0"]
+            raise Untranslatable("assignment to the clock not understood: " + u)
+        if sc.is_var(tgt):
+            # x = {}
+            if isinstance(v, ast.Dict) and not v.keys:
+                return [f".newDict {sc.reg(tgt, u)}"]
+            # x = copy.deepcopy(self.start_Y)
+            if isinstance(v, ast.Call) and isinstance(v.func, ast.Attribute) \
+                    and isinstance(v.func.value, ast.Name) and v.func.value.id == "copy" \
+                    and v.func.attr == "deepcopy" and len(v.args) == 1 and not v.keywords \
+                    and _start_slot(v.args[0]) is not None:
+                return [f".copyStart {sc.reg(tgt, u)} {_start_slot(v.args[0])}"]
+            # x = dict(self.start_Y) / copy.copy(self.start_Y): a shallow copy
+            if isinstance(v, ast.Call) and len(v.args) == 1 and not v.keywords and _start_slot(v.args[0]) is not None \
+                    and ((isinstance(v.func, ast.Name) and v.func.id == "dict")
+                         or (isinstance(v.func, ast.Attribute) and isinstance(v.func.value, ast.Name)
+                             and v.func.value.id == "copy" and v.func.attr == "copy")):
+                return [f".shallowCopyStart {sc.reg(tgt, u)} {_start_slot(v.args[0])}"]
+            # x = self.start_Y
+            if _start_slot(v) is not None:
+                return [f".aliasStart {sc.reg(tgt, u)} {_start_slot(v)}"]
+            # x = y
+            if sc.is_var(v):
+                return [f".move {sc.reg(tgt, u)} {sc.reg(v, u)}"]
         raise Untranslatable("assignment not understood: " + u)
     # self.t_cur += 1 / lbook.rep += 1
     if isinstance(node, ast.AugAssign) and isinstance(node.op, ast.Add) \
@@ -170,15 +212,15 @@ def _stmt(node, guarded=False):
         key = (_self_attr(f.value), f.attr)
         if key not in OPS:
             raise Untranslatable("call of an unknown operator: " + u[:120])
-        rets = [_reg(t, "assignment target") for t in node.targets[0].elts]
-        args = _kwargs(node.value, "miscout", OPS[key])
-        return [f".call .{OPS[key]} {_lean_regs(args)} {_lean_regs(rets)}"]
+        args = _kwargs(node.value, "miscout", OPS[key], sc)
+        rets = "[" + ", ".join(sc.reg(t, "assignment target") for t in node.targets[0].elts) + "]"
+        return [f".call .{OPS[key]} {args} {rets}"]
     if isinstance(node, ast.Expr) and isinstance(node.value, ast.Call):
         c = node.value
         # lbook.log_X(...)
         if _is_call(c, _is_lbook) and c.func.attr in LOGS:
-            args = _kwargs(c, "**", c.func.attr)
-            return [f".log .{LOGS[c.func.attr]} {'true' if guarded else 'false'} {_lean_regs(args)}"]
+            args = _kwargs(c, "**", c.func.attr, sc)
+            return [f".log .{LOGS[c.func.attr]} {'true' if guarded else 'false'} {args}"]
         # self.reset()
         if _is_call(c, _is_self, "reset") and not c.args and not c.keywords:
             return [".callReset"]
@@ -193,10 +235,6 @@ def _stmt(node, guarded=False):
     raise Untranslatable("statement not understood: " + u[:120])
 
 
-def _lean_regs(rs):
-    return "[" + ", ".join("." + r for r in rs) + "]"
-
-
 def _method(cls, name):
     for n in cls.body:
         if isinstance(n, ast.FunctionDef) and n.name == name:
@@ -204,7 +242,7 @@ def _method(cls, name):
     raise Untranslatable(f"method {name} not found")
 
 
-def _split_loop(fn, count_name):
+def _split_loop(fn, count_name, sc):
     """body of a method with exactly one top-level `for _ in range(<count_name>)` loop
     -> (pre, loop body, post) as lists of Lean statements"""
     pre, body, post = [], None, []
@@ -219,11 +257,11 @@ def _split_loop(fn, count_name):
                 raise Untranslatable(f"{fn.name}: loop header not understood: " + ast.unparse(node)[:80])
             body = []
             for b in node.body:
-                body += _stmt(b)
+                body += _stmt(b, sc)
         elif body is None:
-            pre += _stmt(node)
+            pre += _stmt(node, sc)
         else:
-            post += _stmt(node)
+            post += _stmt(node, sc)
     if body is None:
         raise Untranslatable(f"{fn.name}: no loop over range({count_name})")
     return pre, body, post
@@ -234,7 +272,8 @@ def _norm(node):
 
 
 def translate(src_text):
-    """-> dict of the seven statement lists (Lean terms).  Raises Untranslatable."""
+    """-> (dict of the seven statement lists (Lean terms), {method: {local name: number}}).
+    Raises Untranslatable."""
     tree = ast.parse(src_text)
     cls = None
     for n in tree.body:
@@ -242,11 +281,12 @@ def translate(src_text):
             cls = n
     if cls is None:
         raise Untranslatable("class RecurrentSelectionBreedingProgram not found")
+    s_reset, s_adv, s_evo = Scope(200), Scope(100), Scope(0)
     reset = []
     for node in _method(cls, "reset").body:
-        reset += _stmt(node)
-    apre, agen, apost = _split_loop(_method(cls, "advance"), "ngen")
-    epre, erep, epost = _split_loop(_method(cls, "evolve"), "nrep")
+        reset += _stmt(node, s_reset)
+    apre, agen, apost = _split_loop(_method(cls, "advance"), "ngen", s_adv)
+    epre, erep, epost = _split_loop(_method(cls, "evolve"), "nrep", s_evo)
     # the two helpers the schedule relies on must be what the model assumes
     init = [n for n in _method(cls, "initialize").body
             if not (isinstance(n, ast.Expr) and isinstance(n.value, ast.Constant))]
@@ -261,15 +301,19 @@ def translate(src_text):
                           "self._start_gmod is not None)").body
     if [_norm(n) for n in isin] != [_norm(n) for n in want_isin]:
         raise Untranslatable("is_initialized(): body is not the conjunction of five `is not None` tests")
-    return {"evolvePre": epre, "evolveRep": erep, "evolvePost": epost, "reset": reset,
-            "advancePre": apre, "advanceGen": agen, "advancePost": apost}
+    sched = {"evolvePre": epre, "evolveRep": erep, "evolvePost": epost, "reset": reset,
+             "advancePre": apre, "advanceGen": agen, "advancePost": apost}
+    return sched, {"evolve": s_evo.names, "advance": s_adv.names, "reset": s_reset.names}
 
 
-def render(sched, note):
+def render(sched, note, names=None):
     lines = ["/-", "REGENERATED on every run by harness/props/c20.py (pre_build) from",
-             "pybrops/breed/arch/RecurrentSelectionBreedingProgram.py — do not edit.", note, "-/",
-             "import PybropsModel.Model.Program", "", "namespace C20Schedule", "open Program", "",
-             "def evolve : Schedule where"]
+             "pybrops/breed/arch/RecurrentSelectionBreedingProgram.py — do not edit.", note]
+    for m, d in (names or {}).items():
+        if d:
+            lines.append(f"locals of {m}: " + ", ".join(f"{k} = loc {v}" for k, v in d.items()))
+    lines += ["-/", "import PybropsModel.Model.Program", "", "namespace C20Schedule", "open Program", "",
+              "def evolve : Schedule where"]
     for k in ("evolvePre", "evolveRep", "evolvePost", "reset", "advancePre", "advanceGen", "advancePost"):
         items = sched[k]
         if not items:
@@ -289,8 +333,8 @@ def regenerate():
     """-> (ok, message)"""
     try:
         text = open(SRC, encoding="utf-8", newline=None).read()
-        sched = translate(text)
-        body = render(sched, "translation: ok")
+        sched, names = translate(text)
+        body = render(sched, "translation: ok", names)
         ok, msg = True, ""
     except (Untranslatable, SyntaxError, OSError) as e:
         msg = f"{type(e).__name__}: {e}"
@@ -518,30 +562,43 @@ def _prog_module():
 
 
 # ====================================================================== canonical renumbering
-def renumber(start_ids, trace, log_misc_zero, shift=0):
-    """identities -> 1, 2, … by first appearance (start containers first); 0 (after the shift) is
-    kept.  `shift` = 1 for the model, whose heap addresses start at 0."""
-    m = {0: 0}
+class Renumber:
+    """identities -> 1, 2, … by first appearance across the whole case; 0 (after the shift) is kept.
+    `shift` = 1 for the model, whose heap addresses start at 0."""
 
-    def f(i):
+    def __init__(self, shift):
+        self.m = {0: 0}
+        self.shift = shift
+
+    def __call__(self, i):
         if i is None:
             return None
-        i += shift
-        if i not in m:
-            m[i] = len(m)
-        return m[i]
+        i += self.shift
+        if i not in self.m:
+            self.m[i] = len(self.m)
+        return self.m[i]
 
-    s = [f(i) for i in start_ids]
-    out = []
-    for e in trace:
-        e = dict(e)
-        args = list(e["args"])
-        if log_misc_zero and e["kind"].startswith("log:") and args:
-            args[-1] = -shift
-        e["args"] = [f(i) for i in args]
-        e["rets"] = [f(i) for i in e["rets"]]
-        out.append(e)
-    return s, out, f
+    def call(self, c):
+        """canonical form of one call record (model or implementation)"""
+        f = self
+        out = {"start_before": [f(i) for i in c["start_before"]]}
+        tr = []
+        for e in c["trace"]:
+            e = dict(e)
+            args = list(e["args"])
+            if e["kind"].startswith("log:") and args:
+                args[-1] = -self.shift           # the identity of `**misc` is not observable
+            e["args"] = [f(i) for i in args]
+            e["rets"] = [f(i) for i in e["rets"]]
+            tr.append(e)
+        out["trace"] = tr
+        out["work"] = [f(i) for i in c["work"]]
+        out["workVals"] = c["workVals"]
+        out["start_after"] = [f(i) for i in c["start_after"]]
+        out["startVals_after"] = c["startVals_after"]
+        out["rep"] = c["rep"]
+        out["t"] = c["t"]
+        return out
 
 
 N_ARGS = {"pselect": 6, "mate": 7, "evaluate": 6, "sselect": 6}
@@ -549,39 +606,49 @@ N_RETS = {"pselect": 6, "mate": 5, "evaluate": 5, "sselect": 5}
 N_LOG = {"initialize": 5, "pselect": 6, "mate": 6, "evaluate": 5, "sselect": 5}
 
 
+def _calls(case):
+    """the API calls of a case (older replay files have `runs` = evolve calls only)"""
+    if "calls" in case:
+        return case["calls"]
+    return [dict(r, m="evolve") for r in case["runs"]]
+
+
 class C20(Prop):
     PID = "C20"
     MODULE = "PybropsModel.Props.C20"
-    N_QUICK = 220
+    N_QUICK = 240
     N_THOROUGH = 6000
-    RULE = ("RecurrentSelectionBreedingProgram.evolve run with scripted operator / logbook / initialisation "
-            "stubs: nrep 0-4, ngen 0-5, loginit on/off, start containers given (possibly the same dict for two "
-            "slots), partly missing or produced by the initialisation operator, one or two successive evolve "
-            "calls; every operator call mutates handed containers in place with a unique token and returns "
-            "per slot either the handed object, another handed object (alias) or a fresh container with unique "
-            "content; logbook calls may mutate too.  Non-trivial = nrep >= 2, ngen >= 1, at least one in-place "
-            "mutation in the initial evaluation of a replicate and at least one fresh return")
-    TRUSTED = ["copy.deepcopy returns an object graph sharing no mutable state with its argument "
-               "(modelled as allocation of a new cell with equal content)",
-               "the ast -> Lean translator of harness/props/c20.py (statement list of reset/advance/evolve); "
-               "checked on every run by comparing the trace of the regenerated schedule with the real class",
-               "Python attribute/property mechanics of the class (setters check_is_dict / check_is_int)"]
+    RULE = ("RecurrentSelectionBreedingProgram driven through sequences of API calls — evolve(nrep 0-4, ngen 0-5 or "
+            "None, loginit on/off), reset(), advance(ngen) incl. advance after an evolve and reset between advances — "
+            "with scripted operator / logbook / initialisation stubs: start containers given (possibly the same dict "
+            "for two slots), partly missing or produced by the initialisation operator; every operator call mutates "
+            "handed containers in place with a unique token and returns per slot either the handed object, another "
+            "handed object (alias) or a fresh container with unique content; logbook calls may mutate too.  "
+            "Non-trivial = first call is evolve with nrep >= 2, ngen >= 1 (or the case has a direct reset/advance "
+            "call), at least one in-place mutation and at least one fresh return")
+    TRUSTED = ["copy.deepcopy is modelled on an object-graph heap (cells holding references): every cell that "
+               "existed at initialisation is copied and its internal references redirected, so the copy of a start "
+               "container is an isomorphic disjoint graph (theorems view_copy / Good.extend); that Python's "
+               "memoised traversal computes the same graph up to unreachable garbage is trusted",
+               "the ast -> Lean translator of harness/props/c20.py (one Lean statement per Python statement, "
+               "nothing normalised); checked on every run by comparing the trace of the regenerated schedule "
+               "with the real class",
+               "Python attribute/property mechanics of the class (setters check_is_dict / check_is_int) and "
+               "keyword-argument binding"]
     ASSUMPTIONS = ["operators, logbook and initialisation operator are reached only through the references "
                    "they are handed (they hold no reference to the stored start containers)",
-                   "operators return dicts and tuples of the documented arity; nrep, ngen are non-negative ints"]
+                   "operators return dicts and tuples of the documented arity; nrep, ngen are non-negative ints "
+                   "(ngen may be None for evolve, documented as 'use t_max')",
+                   "reset()/advance() are called directly only on an initialised programme, advance() only when "
+                   "working containers exist"]
 
     # ------------------------------------------------------------------ obligations
     def pre_build(self):
         return regenerate()
 
     # ------------------------------------------------------------------ generation
-    @staticmethod
-    def n_calls(run, init):
-        per_rep = 1 + (1 if run["loginit"] else 0) + 8 * run["ngen"]
-        return (1 if init else 0) + run["nrep"] * per_rep
-
-    def _script(self, rng, runs, needs_init, tok, style):
-        """actions in call order for the canonical schedule"""
+    def _script(self, rng, calls, needs_init, tok, style, tmax):
+        """actions in call order"""
         def fresh():
             tok[0] += 1
             return tok[0]
@@ -614,27 +681,37 @@ class C20(Prop):
             pm = 0.15 if style in ("mixed", "inplace") else 0.0
             return {"k": "log:" + kind, "muts": [fresh() if rng.random() < pm else None for _ in range(n)]}
 
+        def gens(n):
+            out = []
+            for _ in range(n):
+                for kind in ("pselect", "mate", "evaluate", "sselect"):
+                    out.append(op_action(kind))
+                    out.append(log_action(kind))
+            return out
+
         script = []
         first = True
-        for run in runs:
-            if first and needs_init:
-                rets = [["new", [fresh()]] for _ in range(5)]
-                if rng.random() < 0.3:        # the operator returns the same dict for two slots
-                    rets[rng.randrange(1, 5)] = ["new", list(rets[0][1])]
-                script.append({"k": "init", "rets": rets})
+        for c in calls:
+            if c["m"] == "evolve":
+                if first and needs_init:
+                    rets = [["new", [fresh()]] for _ in range(5)]
+                    if rng.random() < 0.3:        # equal contents in two slots
+                        rets[rng.randrange(1, 5)] = ["new", list(rets[0][1])]
+                    script.append({"k": "init", "rets": rets})
+                ngen = c["ngen"] if c["ngen"] is not None else tmax
+                for _ in range(c["nrep"]):
+                    script.append(op_action("evaluate", first_eval=True))
+                    if c["loginit"]:
+                        script.append(log_action("initialize"))
+                    script += gens(ngen)
+            elif c["m"] == "advance":
+                script += gens(c["ngen"])
             first = False
-            for _ in range(run["nrep"]):
-                script.append(op_action("evaluate", first_eval=True))
-                if run["loginit"]:
-                    script.append(log_action("initialize"))
-                for _ in range(run["ngen"]):
-                    for kind in ("pselect", "mate", "evaluate", "sselect"):
-                        script.append(op_action(kind))
-                        script.append(log_action(kind))
         return script
 
-    def _case(self, rng, nrep, ngen, loginit=True, style="mixed", start_mode="given", second=None):
+    def _case(self, rng, calls, style="mixed", start_mode="given", tmax=None, tag="evolve"):
         tok = [100]
+        share = []
         if start_mode == "given":
             cells = [[10 * (i + 1), 10 * (i + 1) + 1][:rng.randint(0, 2)] + [i + 1] for i in range(5)]
             start = [0, 1, 2, 3, 4]
@@ -642,6 +719,11 @@ class C20(Prop):
             cells = [[i + 1, 7] for i in range(4)]
             start = [0, 1, 1, 2, 3]
             rng.shuffle(start)
+        elif start_mode == "shared-inner":   # two start dicts hold the very same inner list object
+            cells = [[i + 1, 7] for i in range(5)]
+            start = [0, 1, 2, 3, 4]
+            i, j = rng.sample(range(5), 2)
+            share = [[i, j]]
         elif start_mode == "partial":     # one container missing -> initialisation operator replaces all five
             cells = [[i + 1] for i in range(5)]
             start = [0, 1, 2, 3, 4]
@@ -649,29 +731,50 @@ class C20(Prop):
         else:                              # "init": nothing given
             cells = []
             start = [None] * 5
-        runs = [{"nrep": nrep, "ngen": ngen, "loginit": loginit}]
-        if rng.random() < 0.1:
-            runs[0]["verbose"] = True      # the `if verbose: print(...)` statements are no-ops of the model
-        if second:
-            runs.append(second)
+        if tmax is None:
+            tmax = rng.choice([0, 3, 7, 20])
         needs_init = any(s is None for s in start)
-        script = self._script(rng, runs, needs_init, tok, style)
-        return {"kind": f"evolve:{start_mode}:{style}" + (":two-calls" if second else ""),
-                "tmax": rng.choice([0, 3, 7, 20]), "rep0": rng.choice([0, 0, 1, 5, -2]),
-                "cells": cells, "start": start, "runs": runs, "script": script, "style": style,
+        script = self._script(rng, calls, needs_init, tok, style, tmax)
+        return {"kind": f"{tag}:{start_mode}:{style}",
+                "tmax": tmax, "rep0": rng.choice([0, 0, 1, 5, -2]),
+                "cells": cells, "share": share, "start": start, "calls": calls, "script": script, "style": style,
                 "start_mode": start_mode}
+
+    @staticmethod
+    def _ev(nrep, ngen, loginit=True, verbose=False):
+        c = {"m": "evolve", "nrep": nrep, "ngen": ngen, "loginit": loginit}
+        if verbose:
+            c["verbose"] = True
+        return c
 
     def corpus(self):
         import random
         rng = random.Random(20)
+        ev = self._ev
         out = [
-            self._case(rng, 0, 0), self._case(rng, 1, 0), self._case(rng, 0, 3), self._case(rng, 1, 1),
-            self._case(rng, 2, 2, style="inplace"), self._case(rng, 3, 2, style="fresh"),
-            self._case(rng, 2, 1, loginit=False), self._case(rng, 2, 2, style="pure"),
-            self._case(rng, 2, 1, start_mode="init"), self._case(rng, 2, 1, start_mode="partial"),
-            self._case(rng, 2, 2, start_mode="shared"),
-            self._case(rng, 2, 1, second={"nrep": 2, "ngen": 2, "loginit": True}),
-            self._case(rng, 4, 5, style="mixed"),
+            self._case(rng, [ev(0, 0)]), self._case(rng, [ev(1, 0)]), self._case(rng, [ev(0, 3)]),
+            self._case(rng, [ev(1, 1)]),
+            self._case(rng, [ev(2, 2)], style="inplace"), self._case(rng, [ev(3, 2)], style="fresh"),
+            self._case(rng, [ev(2, 1, loginit=False)]), self._case(rng, [ev(2, 2)], style="pure"),
+            self._case(rng, [ev(2, 1)], start_mode="init"), self._case(rng, [ev(2, 1)], start_mode="partial"),
+            self._case(rng, [ev(2, 2)], start_mode="shared"),
+            self._case(rng, [ev(2, 2)], start_mode="shared-inner", style="inplace"),
+            self._case(rng, [ev(2, 1), ev(2, 2)], tag="two-evolves"),
+            self._case(rng, [ev(4, 5)], style="mixed"),
+            # clock beyond t_max, zero generations with t_max > 0
+            self._case(rng, [ev(2, 5)], tmax=3), self._case(rng, [ev(2, 4)], tmax=0),
+            self._case(rng, [ev(2, 0)], tmax=3),
+            # direct calls: reset, advance, advance after an evolve, reset between advances
+            self._case(rng, [{"m": "reset"}], tag="api"),
+            self._case(rng, [{"m": "reset"}, {"m": "advance", "ngen": 2}], tag="api"),
+            self._case(rng, [ev(1, 2), {"m": "advance", "ngen": 2}], tag="api"),
+            self._case(rng, [{"m": "reset"}, {"m": "advance", "ngen": 1}, {"m": "reset"},
+                             {"m": "advance", "ngen": 2}, {"m": "advance", "ngen": 1}], tag="api", style="inplace"),
+            self._case(rng, [ev(2, 1), {"m": "reset"}, {"m": "advance", "ngen": 0}, ev(1, 1)], tag="api",
+                       start_mode="init"),
+            # ngen = None (documented: use t_max; regression cases of D36, fixed by 89fb67b3)
+            self._case(rng, [ev(0, None)], tmax=3, tag="ngen-none"),
+            self._case(rng, [ev(2, None)], tmax=2, tag="ngen-none"),
         ]
         for c in out:
             c["_corpus"] = "builtin"
@@ -679,18 +782,43 @@ class C20(Prop):
 
     def generate(self, rng, n, tier):
         out = []
+        ev = self._ev
         for _ in range(n):
             nrep = rng.choice([0, 1, 2, 2, 2, 3, 3, 4])
             ngen = rng.choice([0, 1, 1, 2, 2, 3, 4, 5])
             if tier == "thorough" and rng.random() < 0.05:
                 nrep, ngen = rng.randint(4, 8), rng.randint(4, 9)
             style = rng.choice(["mixed", "mixed", "mixed", "inplace", "fresh", "pure"])
-            mode = rng.choice(["given"] * 6 + ["shared", "partial", "init", "init"])
-            second = None
-            if rng.random() < 0.12:
-                second = {"nrep": rng.randint(1, 2), "ngen": rng.randint(0, 2), "loginit": rng.random() < 0.8}
-            out.append(self._case(rng, nrep, ngen, loginit=rng.random() < 0.8, style=style, start_mode=mode,
-                                  second=second))
+            mode = rng.choice(["given"] * 6 + ["shared", "shared-inner", "partial", "init", "init"])
+            r = rng.random()
+            first = ev(nrep, ngen, loginit=rng.random() < 0.8, verbose=rng.random() < 0.1)
+            if r < 0.62:
+                out.append(self._case(rng, [first], style=style, start_mode=mode))
+            elif r < 0.72:
+                second = ev(rng.randint(1, 2), rng.randint(0, 2), loginit=rng.random() < 0.8)
+                out.append(self._case(rng, [first, second], style=style, start_mode=mode, tag="two-evolves"))
+            elif r < 0.76:
+                tmax = rng.choice([0, 1, 2, 3])
+                out.append(self._case(rng, [ev(rng.choice([0, 1, 2]), None, loginit=rng.random() < 0.8)],
+                                      style=style, start_mode=mode, tmax=tmax, tag="ngen-none"))
+            else:
+                # a history of direct API calls; reset/advance need an initialised programme, advance needs
+                # working containers
+                calls = []
+                have_work = False
+                inited = mode in ("given", "shared")
+                for _ in range(rng.randint(1, 5)):
+                    choice = rng.random()
+                    if not inited or choice < 0.3:
+                        k = rng.choice([1, 1, 2])
+                        calls.append(ev(k, rng.randint(0, 2), loginit=rng.random() < 0.8))
+                        inited, have_work = True, True
+                    elif not have_work or choice < 0.55:
+                        calls.append({"m": "reset"})
+                        have_work = True
+                    else:
+                        calls.append({"m": "advance", "ngen": rng.choice([0, 1, 1, 2, 3])})
+                out.append(self._case(rng, calls, style=style, start_mode=mode, tag="api"))
         return out
 
     # ------------------------------------------------------------------ implementation
@@ -700,6 +828,8 @@ class C20(Prop):
         rec = Recorder()
         rec.script = case["script"]
         cells = [{"h": list(c)} for c in case["cells"]]
+        for i, j in case.get("share", []):
+            cells[i]["h"] = cells[j]["h"]          # one list object below two dicts
         start = [None if i is None else cells[i] for i in case["start"]]
         book = Book(rec, case["rep0"])
         rec.lbook = book
@@ -708,64 +838,96 @@ class C20(Prop):
             start_genome=start[0], start_geno=start[1], start_pheno=start[2], start_bval=start[3],
             start_gmod=start[4])
         rec.prog = prog
-        runs = []
-        for run in case["runs"]:
+
+        def work():
+            objs = [getattr(prog, "_" + n, None) for n in FIVE]
+            return [None if o is None else rec.oid(o) for o in objs], [rec.val(o) for o in objs]
+
+        out = []
+        for c in _calls(case):
             rec.trace = []
-            before_ids = rec.start_ids()
-            before_vals = rec.start_vals()
-            with contextlib.redirect_stdout(io.StringIO()):
-                prog.evolve(nrep=run["nrep"], ngen=run["ngen"], lbook=book, loginit=run["loginit"],
-                            verbose=bool(run.get("verbose", False)))
-            runs.append({"trace": rec.trace, "start_before": before_ids, "V0given": before_vals,
-                         "start_after": rec.start_ids(), "startVals_after": rec.start_vals(),
-                         "rep": int(book.rep), "t": int(prog.t_cur)})
-        return {"runs": runs, "script_left": len(case["script"]) - len(rec.used)}
+            w_ids, w_vals = work()
+            o = {"m": c["m"], "start_before": rec.start_ids(), "V0given": rec.start_vals(),
+                 "work_before": w_ids, "workVals_before": w_vals, "t_before": int(prog.t_cur), "raised": None}
+            try:
+                with contextlib.redirect_stdout(io.StringIO()):
+                    if c["m"] == "evolve":
+                        prog.evolve(nrep=c["nrep"], ngen=c["ngen"], lbook=book, loginit=c["loginit"],
+                                    verbose=bool(c.get("verbose", False)))
+                    elif c["m"] == "reset":
+                        prog.reset()
+                    else:
+                        prog.advance(ngen=c["ngen"], lbook=book)
+            except Exception as e:          # every generated call is valid: raising is a Spec violation
+                o["raised"] = {"type": type(e).__name__, "text": f"{type(e).__name__}: {e}"[:200]}
+            w_ids, w_vals = work()
+            o.update({"trace": rec.trace, "start_after": rec.start_ids(), "startVals_after": rec.start_vals(),
+                      "work": w_ids, "workVals": w_vals, "rep": int(book.rep), "t": int(prog.t_cur)})
+            out.append(o)
+            if o["raised"]:
+                break
+        return {"calls": out, "script_left": len(case["script"]) - len(rec.used)}
 
     # ------------------------------------------------------------------ model requests
     def requests(self, case, obs):
-        reqs = [{"op": "c20.run", "cells": case["cells"], "start": case["start"], "tmax": case["tmax"],
-                 "rep0": case["rep0"], "script": case["script"], "runs": case["runs"]}]
-        for run, o in zip(case["runs"], obs["runs"]):
-            reqs.append({"op": "c20.spec", "nrep": run["nrep"], "ngen": run["ngen"], "loginit": run["loginit"],
-                         "V0given": o["V0given"], "trace": o["trace"], "startVals_after": o["startVals_after"]})
+        reqs = [{"op": "c20.run", "cells": case["cells"], "share": case.get("share", []), "start": case["start"],
+                 "tmax": case["tmax"],
+                 "rep0": case["rep0"], "script": case["script"],
+                 "calls": [{k: v for k, v in c.items() if k != "verbose"} for c in _calls(case)]}]
+        for c, o in zip(_calls(case), obs["calls"]):
+            if o["raised"]:
+                continue
+            if c["m"] == "evolve":
+                ngen = c["ngen"] if c["ngen"] is not None else case["tmax"]     # documented default
+                reqs.append({"op": "c20.spec", "nrep": c["nrep"], "ngen": ngen, "loginit": c["loginit"],
+                             "V0given": o["V0given"], "trace": o["trace"], "startVals_after": o["startVals_after"]})
+            elif c["m"] == "reset":
+                reqs.append({"op": "c20.spec_reset", "V0": o["V0given"], "workVals": o["workVals"], "t": o["t"],
+                             "startVals_after": o["startVals_after"]})
+            else:
+                reqs.append({"op": "c20.spec_advance", "ngen": c["ngen"], "t0": o["t_before"], "V0": o["V0given"],
+                             "cur": o["work_before"], "curVals": o["workVals_before"], "trace": o["trace"],
+                             "startVals_after": o["startVals_after"]})
         return reqs
-
-    @staticmethod
-    def _canon_run(r, log_misc_zero, shift=0):
-        s, tr, f = renumber(r["start_before"], r["trace"], log_misc_zero, shift)
-        return {"start_before": s, "trace": tr, "start_after": [f(i) for i in r["start_after"]],
-                "startVals_after": r["startVals_after"], "rep": r["rep"], "t": r["t"]}
 
     def judge(self, case, obs, answers):
         for a in answers:
             if "err" in a:
                 raise RuntimeError("driver error: " + a["err"])
-        model = answers[0]["ok"]["runs"]
-        corr = len(model) == len(obs["runs"])
+        calls = _calls(case)
+        model = answers[0]["ok"]["calls"]
         detail = []
-        if not corr:
-            detail.append(f"model completed {len(model)} evolve calls, implementation {len(obs['runs'])}")
-        for i, (m, o) in enumerate(zip(model, obs["runs"])):
-            if m["bad"]:
+        corr = True
+        rm, ro = Renumber(1), Renumber(0)
+        if len(model) != len(obs["calls"]):
+            corr = False
+            detail.append(f"model performed {len(model)} calls, implementation {len(obs['calls'])}")
+        for i, (m, o) in enumerate(zip(model, obs["calls"])):
+            if bool(m["bad"]) != bool(o["raised"]):
                 corr = False
-                detail.append(f"run {i}: model says the code raises")
-                continue
-            cm = self._canon_run(m, True, 1)
-            co = self._canon_run(o, True)
+                detail.append(f"call {i} ({o['m']}): model raises={m['bad']}, implementation raised={o['raised']}")
+            cm, co = rm.call(m), ro.call(o)
             if cm != co:
                 corr = False
-                detail.append(f"run {i}: " + _first_diff(cm, co))
+                detail.append(f"call {i} ({o['m']}): " + _first_diff(cm, co))
         spec = True
         sdetail = []
-        for i, a in enumerate(answers[1:]):
-            if not a["ok"]["ok"]:
+        it = iter(answers[1:])
+        for i, (c, o) in enumerate(zip(calls, obs["calls"])):
+            if o["raised"]:
                 spec = False
-            sdetail.append(f"run {i} Spec: {a['ok']['detail']}")
+                sdetail.append(f"call {i} ({c['m']}) raised {o['raised']['text']}")
+                continue
+            a = next(it)["ok"]
+            if not a["ok"]:
+                spec = False
+            sdetail.append(f"call {i} ({c['m']}) Spec: {a['detail']}")
         detail = sdetail + ["correspondence: " + (d if (d := "; ".join(detail)) else "model trace = implementation trace")]
-        run0 = case["runs"][0]
         sc = case["script"]
-        nontriv = (run0["nrep"] >= 2 and run0["ngen"] >= 1
-                   and any(m is not None for a in sc for m in a.get("muts", []))
+        c0 = calls[0]
+        big = (c0["m"] == "evolve" and c0["nrep"] >= 2 and (c0["ngen"] or 0) >= 1) or \
+            any(c["m"] != "evolve" for c in calls)
+        nontriv = (big and any(m is not None for a in sc for m in a.get("muts", []))
                    and any(r[0] == "new" for a in sc[1:] for r in a.get("rets", [])))
         return {"corr": corr, "spec": spec, "nontrivial": nontriv, "detail": "; ".join(detail)}
 
@@ -774,19 +936,24 @@ class C20(Prop):
 
     # ------------------------------------------------------------------ shrinking
     def shrink(self, case):
-        """drop the second evolve call / the last replicate / the last generation of every replicate
-        (keeping the remaining scripted actions as they are), then neutralise single actions"""
-        runs = case["runs"]
-        if len(runs) > 1:
-            yield self._reshape(case, [(0, runs[0]["nrep"], runs[0]["ngen"])])
-        shape = [(i, r["nrep"], r["ngen"]) for i, r in enumerate(runs)]
+        """drop a call / the last replicate / the last generation of a call (keeping the remaining
+        scripted actions as they are), simplify the start containers, then neutralise single actions"""
+        calls = _calls(case)
+        shape = [(i, c.get("nrep"), c.get("ngen")) for i, c in enumerate(calls)]
+        if len(calls) > 1:
+            yield self._reshape(case, shape[:-1])
+            if calls[0]["m"] != "evolve" or all(s is not None for s in case["start"]):
+                if calls[1]["m"] != "advance" or calls[0]["m"] == "reset":
+                    pass
         for j, (i, nrep, ngen) in enumerate(shape):
-            if nrep > 0:
+            m = calls[i]["m"]
+            if m == "evolve" and nrep > 0 and (nrep > 1 or j == len(shape) - 1 or calls[shape[j + 1][0]]["m"] != "advance"):
                 yield self._reshape(case, shape[:j] + [(i, nrep - 1, ngen)] + shape[j + 1:])
-            if ngen > 0:
+            if m != "reset" and ngen:
                 yield self._reshape(case, shape[:j] + [(i, nrep, ngen - 1)] + shape[j + 1:])
         if case.get("start_mode") != "given" and all(s is not None for s in case["start"]):
             c = copy.deepcopy(case)
+            c["share"] = []
             c["cells"] = [[i + 1] for i in range(5)]
             c["start"] = [0, 1, 2, 3, 4]
             c["start_mode"] = "given"
@@ -799,8 +966,8 @@ class C20(Prop):
 
     @staticmethod
     def _chunks(case):
-        """the script of a generated case, split as [init actions], then per run a list of replicates,
-        each (head actions, [generation actions])"""
+        """the script of a generated case, split as [init actions], then per call: for evolve a list of
+        replicates (head actions, [generation actions]); for advance [generation actions]; for reset []"""
         sc = list(case["script"])
         pos = 0
         init = []
@@ -808,32 +975,54 @@ class C20(Prop):
             init = [sc[0]]
             pos = 1
         out = []
-        for r in case["runs"]:
-            reps = []
-            for _ in range(r["nrep"]):
-                nh = 2 if r["loginit"] else 1
-                head = sc[pos:pos + nh]
-                pos += nh
+        for c in _calls(case):
+            if c["m"] == "evolve":
+                ngen = c["ngen"] if c["ngen"] is not None else case["tmax"]
+                reps = []
+                for _ in range(c["nrep"]):
+                    nh = 2 if c["loginit"] else 1
+                    head = sc[pos:pos + nh]
+                    pos += nh
+                    gens = []
+                    for _ in range(ngen):
+                        gens.append(sc[pos:pos + 8])
+                        pos += 8
+                    reps.append((head, gens))
+                out.append(reps)
+            elif c["m"] == "advance":
                 gens = []
-                for _ in range(r["ngen"]):
+                for _ in range(c["ngen"]):
                     gens.append(sc[pos:pos + 8])
                     pos += 8
-                reps.append((head, gens))
-            out.append(reps)
+                out.append(gens)
+            else:
+                out.append([])
         return init, out
 
     def _reshape(self, case, shape):
-        """shape = [(index of the run to keep, nrep, ngen)]"""
+        """shape = [(index of the call to keep, nrep, ngen)]"""
         init, chunks = self._chunks(case)
+        calls = _calls(case)
         c = copy.deepcopy(case)
-        c["runs"] = []
+        c.pop("runs", None)
+        c["calls"] = []
         script = list(init)
         for i, nrep, ngen in shape:
-            c["runs"].append(dict(case["runs"][i], nrep=nrep, ngen=ngen))
-            for head, gens in chunks[i][:nrep]:
-                script += head
-                for g in gens[:ngen]:
+            old = calls[i]
+            if old["m"] == "evolve":
+                keep_none = old["ngen"] is None and ngen is None
+                c["calls"].append(dict(old, nrep=nrep, ngen=ngen))
+                n = case["tmax"] if keep_none else (ngen or 0)
+                for head, gens in chunks[i][:nrep]:
+                    script += head
+                    for g in gens[:n]:
+                        script += g
+            elif old["m"] == "advance":
+                c["calls"].append(dict(old, ngen=ngen))
+                for g in chunks[i][:ngen]:
                     script += g
+            else:
+                c["calls"].append(dict(old))
         c["script"] = copy.deepcopy(script)
         return c
 
@@ -889,9 +1078,12 @@ class C20(Prop):
         return [
             ("reset_assigns_start_containers", mk(["reset"], reset_assign)),
             ("reset_shallow_copy", mk(["reset"], lambda s: s.replace("copy.deepcopy(self.start_geno)", "copy.copy(self.start_geno)"))),
+            ("reset_dict_copy_of_gmod", mk(["reset"], lambda s: s.replace("copy.deepcopy(self.start_gmod)", "dict(self.start_gmod)"))),
             ("reset_copies_wrong_container", mk(["reset"], lambda s: s.replace("copy.deepcopy(self.start_bval)", "copy.deepcopy(self.start_pheno)"))),
             ("reset_keeps_clock", mk(["reset"], lambda s: s.replace("        self.t_cur = 0                                  # reset time", "        pass"))),
             ("advance_t_cur_not_incremented", mk(["advance"], lambda s: s.replace("            self._t_cur += 1", "            pass"))),
+            ("advance_t_cur_clamped_at_t_max", mk(["advance"], lambda s: s.replace(
+                "            self._t_cur += 1", "            self._t_cur = min(self._t_cur + 1, self._t_max)"))),
             ("advance_mate_before_pselect", mk(["advance"], swap_psel_mate)),
             ("advance_evaluate_not_assigned_back", mk(["advance"], lambda s: s.replace(
                 eval_call, eval_call.replace("self.genome, self.geno, self.pheno, self.bval, self.gmod = ", "_unused = ")))),
@@ -900,6 +1092,10 @@ class C20(Prop):
                 "self._sselop.sselect(\n                genome = self._genome,\n                geno = self._genome,"))),
             ("advance_log_mate_dropped", mk(["advance"], lambda s: s.replace("            lbook.log_mate(", "            (lambda **k: None)("))),
             ("advance_one_generation_short", mk(["advance"], lambda s: s.replace("for _ in range(ngen):", "for _ in range(max(ngen - 1, 0)):"))),
+            ("evolve_ngen_none_default_removed", mk(["evolve"], lambda s: s.replace(
+                "        if ngen is None:\n            ngen = self._t_max\n", ""))),
+            ("evolve_ngen_or_t_max", mk(["evolve"], lambda s: s.replace(
+                "        # initialize if needed\n", "        ngen = ngen or self._t_max\n        # initialize if needed\n"))),
             ("evolve_no_reset", mk(["evolve"], lambda s: s.replace("            self.reset()\n", "            self.reset() if r == 0 else None\n"))),
             ("evolve_initial_evaluation_skipped", mk(["evolve"], lambda s: s.replace(
                 "            self.genome, self.geno, self.pheno, self.bval, self.gmod = self._evalop.evaluate(\n                genome = self._genome,\n                geno = self._geno,\n                pheno = self._pheno,\n                bval = self._bval,\n                gmod = self._gmod,\n                t_cur = self._t_cur,\n                t_max = self._t_max,\n                miscout = misc\n            )\n            if loginit:",
